@@ -91,6 +91,49 @@ pub mod cn {
     pub open spec fn is_canonical(t: Seq<u8>) -> bool {
         t.len() > 0 && (t =~= seq![DOT] || canonical_from(t, if sep(t[0]) { 1 } else { 0 }, false))
     }
+    // --- unbounded lemma: canonical strings are fixpoints of canon (half of idempotence; the other half, that every
+    //     output is canonical, is only checked exhaustively up to a length bound)
+    pub proof fn lemma_run_fix(t: Seq<u8>, i: int, ns: bool, st: Seq<usize>)
+        requires 0 <= i, canonical_from(t, i, ns), ns || st.len() == 0
+        ensures run(t, i, t.take(i), st) == t || i > t.len()
+        decreases t.len() + 3 - i
+    {
+        if i >= t.len() {
+            if i == t.len() { assert(t.take(i) =~= t); }
+        } else {
+            lemma_comp_end(t, i);
+            if dotdot_at(t, i) {
+                let out2 = t.take(i) + seq![DOT, DOT] + (if i + 2 < t.len() { seq![t[i + 2]] } else { Seq::<u8>::empty() });
+                if i + 2 < t.len() {
+                    assert(out2 =~= t.take(i + 3));
+                    lemma_run_fix(t, i + 3, false, st);
+                } else {
+                    assert(out2 =~= t);
+                    assert(run(t, i + 3, out2, st) == out2);
+                }
+            } else {
+                let e = comp_end(t, i);
+                assert(t.take(i) + t.subrange(i, e) =~= t.take(e));
+                assert(!(t[i] == DOT && i + 1 >= t.len()) && !(t[i] == DOT && sep(t[i + 1])) && !sep(t[i]));
+                lemma_run_fix(t, e, true, st.push(t.take(i).len() as usize));
+                assert(run(t, i, t.take(i), st) == run(t, e, t.take(i) + t.subrange(i, e), st.push(t.take(i).len() as usize)));
+            }
+        }
+    }
+    pub proof fn lemma_canon_fix(t: Seq<u8>)
+        requires is_canonical(t)
+        ensures canon(t) == t
+    {
+        if t =~= seq![DOT] {
+            assert(run(t, 0, Seq::<u8>::empty(), Seq::<usize>::empty()).len() == 0);
+        } else if sep(t[0]) {
+            assert(seq![t[0]] =~= t.take(1));
+            lemma_run_fix(t, 1, false, Seq::<usize>::empty());
+        } else {
+            assert(Seq::<u8>::empty() =~= t.take(0));
+            lemma_run_fix(t, 0, false, Seq::<usize>::empty());
+        }
+    }
     /// the location a path denotes, lexically: how many levels above the start (or root) it climbs, then which names it descends
     #[via_fn]
     proof fn loc_dec(t: Seq<u8>, i: int, ups: int, names: Seq<Seq<u8>>) {
